@@ -9,6 +9,7 @@ import (
 	"fmt"
 	"sync"
 	"testing"
+	"time"
 
 	"pgregory.net/rapid"
 	"verifharness/kit"
@@ -29,6 +30,7 @@ type C01Case struct {
 	GateReq   bool      `json:"gate_req"`   // hold request writes and release them one by one
 	GateReply bool      `json:"gate_reply"` // hold reply writes likewise
 	Tape      []byte    `json:"tape"`
+	TickMs    int       `json:"tick_ms,omitempty"` // virtual time that passes at every quiescent point of the schedule
 }
 
 func c01Reply(req, pad []byte) []byte {
@@ -81,6 +83,7 @@ func genC01(t *rapid.T) C01Case {
 	c.GateReq = rapid.Bool().Draw(t, "gate_req")
 	c.GateReply = rapid.Bool().Draw(t, "gate_reply")
 	c.Tape = rapid.SliceOfN(rapid.Byte(), 0, 3*n+8).Draw(t, "tape")
+	c.TickMs = rapid.SampledFrom([]int{0, 0, 1, 20, 2000}).Draw(t, "tick_ms")
 	return c
 }
 
@@ -117,6 +120,7 @@ func execC01(t *testing.T, c C01Case) (v Verdict) {
 		svc := kit.NewSvc()
 		var w *kit.World
 		sched = kit.NewSched()
+		sched.Tick = time.Duration(c.TickMs) * time.Millisecond
 		for i := range c.Calls {
 			i := i
 			svc.Unary(fmt.Sprintf("u%d", i), func(ctx context.Context, req []byte) ([]byte, error) {
@@ -237,7 +241,7 @@ func execC01(t *testing.T, c C01Case) (v Verdict) {
 		nclass = "2-8"
 	}
 	v.Info.Labels = []string{"topo=" + c.Topo.Kind, fmt.Sprintf("ser=%v", c.Topo.Serialize), "n=" + nclass,
-		"maxreq=" + kit.SizeClass(maxLen), fmt.Sprintf("reordered=%v", reordered), fmt.Sprintf("clients=%d", c.Topo.Clients)}
+		"maxreq=" + kit.SizeClass(maxLen), fmt.Sprintf("reordered=%v", reordered), fmt.Sprintf("clients=%d", c.Topo.Clients), fmt.Sprintf("time_passes=%v", c.TickMs > 0)}
 	v.Info.NonTrivial = (n >= 2 && reordered) || hasEmpty || maxLen >= 16384
 	key, _ := json.Marshal(c)
 	v.Info.Key = string(key)
